@@ -1917,7 +1917,14 @@ class scope(slots_getstate_setstate):
             else:
                 processed_as_str = {}
                 result_objs = []
-                master_as_str = master_object.extract_format().as_str()
+                if master_object.is_scope:
+                    # a scope's own content may declare further instances of
+                    # nested .multiple objects: merge them before rendering
+                    master_as_str = master_object.extract_format(
+                        source=master_object.fetch()
+                    ).as_str()
+                else:
+                    master_as_str = master_object.extract_format().as_str()
                 for from_master, matching in [
                     (True, self.get(path=path, with_substitution=False)),
                     (False, matching_sources),
@@ -1957,6 +1964,11 @@ class scope(slots_getstate_setstate):
                         master_object.optional is not None
                         and not master_object.optional
                     ):
+                        # the default instance of a mandatory .multiple object
+                        # is live content, not a template: merge its own
+                        # further instances like any other scope
+                        if master_object.is_scope:
+                            obj = master_object.fetch()
                         obj.is_template = 0
                     elif len(processed_as_str) == 0:
                         obj.is_template = 1
